@@ -97,6 +97,8 @@ class Ctx:
         if self.brokens and code == 0:
             code = 2
         if self.replay_only or getattr(self, "no_evidence", False):
+            print("%s: %d obligations, %d discharged, %d violations, %d known, %d undecided, %d analysis-broken (no evidence written)"
+                  % (self.pid, nob, ndis, len(self.violations), len(self.known_hits), len(self.undecided), len(self.brokens)))
             return code
         level = self.level
         if code != 0 and level == "proof":
